@@ -728,7 +728,12 @@ func (s *Session) Stop() (err error) {
 		return fmt.Errorf("sendWithErrorCheck logout request: %w", err)
 	}
 
-	delayTimer := time.AfterFunc(s.LogonSettings.CloseTimeout, func() {
+	// LogonSettings is replaced under s.mu when a Logon is processed.
+	s.mu.Lock()
+	closeTimeout := s.LogonSettings.CloseTimeout
+	s.mu.Unlock()
+
+	delayTimer := time.AfterFunc(closeTimeout, func() {
 		s.cancel()
 	})
 
